@@ -129,14 +129,29 @@ def class_cases(tier):
                         if tier != "thorough" and (when == "after_compute_and_transform") != (r == "netcdf_attrs"):
                             continue
                         cases.append(dict(fam=f, ds=ds, rot=rot, route=r, when=when))
+    # a list input with more than ten elements (list positions become tree keys "0".."11")
+    for r in ROUTES:
+        cases.append(dict(fam="EOF", ds="d12", rot=False, route=r, when="after_fit"))
+    cases.append(dict(fam="EOFstd", ds="d12", rot=True, route="netcdf_attrs", when="after_compute_and_transform"))
     return cases
+
+
+def big_list(seed):
+    from ..data import DataSetSpec
+    rng = np.random.default_rng(50 + seed)
+    items = []
+    for j in range(12):
+        p = 2 + j % 3
+        items.append(xr.DataArray(rng.normal(size=(15, p)) * (1 + j) + 10 * j, dims=("time", f"f{j}"),
+                                  coords={"time": np.arange(15), f"f{j}": np.arange(p) + 0.5}, name=f"v{j}"))
+    return DataSetSpec("d12", items, None, "time", 12)
 
 
 def answers(fam, obj, w, ds, is_rot):
     out = {}
     out["scores"] = fam.scores(obj)
     out["components"] = fam.components(obj)
-    other = "d2" if ds == "d1" else "d3"
+    other = "d2" if ds == "d1" else ds
     if fam.caps["hasTransform"]:
         out["transform"] = fam.transform(obj, w.ds_mem[other])
     if fam.caps["hasInverse"] and not is_rot:
@@ -150,6 +165,8 @@ def eval_class(i, case):
     ck = Checker()
     fam = FAMILIES[case["fam"]]
     w = World(case["fam"], True, False, True, seed=common.seed())
+    if case["ds"] == "d12":
+        w.ds_mem["d12"] = big_list(common.seed())
     with warnings.catch_warnings():
         warnings.simplefilter("ignore")
         model = w.new_model()
@@ -160,7 +177,7 @@ def eval_class(i, case):
         if case["when"] == "after_compute_and_transform":
             obj.compute()
             if fam.caps["hasTransform"]:
-                fam.transform(obj, w.ds_mem["d2" if case["ds"] == "d1" else "d3"])
+                fam.transform(obj, w.ds_mem["d2" if case["ds"] == "d1" else case["ds"]])
         ref = answers(fam, obj, w, case["ds"], case["rot"])
         try:
             dt = route(obj.serialize(), case["route"])
